@@ -294,6 +294,19 @@ class Path:
         if z3.is_bv_value(e):
             return _signed(e.as_long())
         self.stats.realisations += 1
+        if hi - lo <= 65536:
+            # balanced bisection on the (concrete) interval: deterministic,
+            # logarithmic depth, and the fork tree parallelises well
+            a, b = lo, hi
+            while a < b:
+                mid = (a + b) // 2
+                if self.decide(e <= mid):
+                    b = mid
+                else:
+                    a = mid + 1
+            if not self.decide(e == a):
+                raise Inconsistent('bisection ended outside the interval')
+            return a
         n = 0
         cur_lo = lo
         while True:
